@@ -37,6 +37,8 @@ def programs(tier):
         ('b', '+', X, ('c', 2.0)), ('b', '-', X, ('c', 2.0)), ('b', '*', X, ('c', 2.0)), ('b', '/', X, ('c', 2.0)),
         ('b', '/', X, ('b', '+', ('c', 1.5), ('p', X, 2))),
     ]
+    # the two binary functions the class defines besides the operators
+    progs += [('b', 'L', S, E), ('b', 'L', X, ('c', 2.0)), ('b', 'L2', X, ('u', 'cos', X)), ('b', 'L2', E, ('c', -1.5))]
     progs += [('p', X, r) for r in (2, 3, 5, -1, -2, -3, 0, 1, 2.0, 0.5, 1.5, -0.5, 2.5)]
     progs += [('pw', ('c', 2.0), X), ('pw', E, X), ('pw', ('b', '+', ('c', 2.0), S), ('u', 'cos', X)),
               ('pw', ('b', '+', ('c', 3.0), X), X)]
